@@ -69,6 +69,7 @@ type Op struct {
 	Panic    string // normalised message, "" if none
 	PanicAt  string // innermost in-repo frames
 	Returned bool
+	Blocked  int // times the calling thread was found durably blocked (channel/timer/WaitGroup) during the call
 }
 
 func (o *Op) String() string {
@@ -97,6 +98,8 @@ func (h *Hist) Do(thread, name string, arg interface{}, f func() (interface{}, e
 	op.Inv = h.S.Stamp()
 	op.TInv = h.S.Now()
 	h.Ops = append(h.Ops, op)
+	self := h.S.Self()
+	b0 := self.Blocks
 	func() {
 		defer func() {
 			if r := recover(); r != nil {
@@ -106,6 +109,7 @@ func (h *Hist) Do(thread, name string, arg interface{}, f func() (interface{}, e
 		}()
 		op.Val, op.Err = f()
 	}()
+	op.Blocked = self.Blocks - b0
 	op.Ret = h.S.Stamp()
 	op.TRet = h.S.Now()
 	op.Returned = true
